@@ -32,10 +32,4 @@ for d in sorted(glob.glob(cand + '/*/')):
                 caught_by=sorted(k for k, v in caught.items() if v['exit'] == 1))
     json.dump(meta, open(os.path.join(out, 'meta.json'), 'w'), indent=1)
     rows.append((name, prop, caught))
-with open(os.path.join(VERIF, 'seeded', 'MATRIX.md'), 'w') as f:
-    f.write('# Seeded changes vs checks\n\nexit 1 = the check reports a VIOLATION on the changed tree; 0 = passes; 2 = could not decide. Quick tier.\n\n| change | property | results |\n|---|---|---|\n')
-    for name, prop, caught in rows:
-        f.write('| %s | %s | %s |\n' % (name, prop, ', '.join('%s: exit %d (%d)' % (k, v['exit'], v['violations']) for k, v in sorted(caught.items())) or 'not run'))
-    own = [(n, p, c) for n, p, c in rows if p in c]
-    f.write('\n%d changes; own-property check exits 1 for %d of %d run.\n' % (len(rows), sum(1 for n, p, c in own if c[p]['exit'] == 1), len(own)))
-print(len(rows), 'seeded changes written')
+print(len(rows), 'seeded changes written'); import subprocess; subprocess.run([sys.executable, os.path.join(VERIF, 'lib', 'mkmatrix.py')])
